@@ -9,6 +9,7 @@
                              leave no trace), "NOTRACE" otherwise (if the implementation rejects it, no trace)
      what a mode does not judge is answered ANY. *)
 
+let oint_of_string_opt = int_of_string_opt
 let rec nat_of_int n = if n <= 0 then O else S (nat_of_int (n - 1))
 let rec int_of_nat n = match n with O -> 0 | S m -> 1 + int_of_nat m
 
@@ -24,7 +25,8 @@ let unit_ok (u : string) : bool = let o = ostr u in o = "" || o = "none" || isSI
 
 exception Refuse of ostring
 
-type slot = { kind : char; parent : int; name : ostring; mutable bound : bool; mutable oid : int }
+type slot = { kind : char; parent : int; name : ostring; mutable bound : bool; mutable oid : int;
+              mutable lost : bool (* re-identified, noticed at the last liveness refresh: dead for the implementation driver *) }
 type world = { mutable st : db; beh : behaviour; mutable tbl : slot array; mutable n : int;
                ord_of_oid : (int, int) OHashtbl.t; mutable last_dump : ostring }
 
@@ -34,7 +36,8 @@ let reset_world w = w.st <- empty_db; w.tbl <- [||]; w.n <- 0; OHashtbl.reset w.
 let slot_of w k = if k < 0 || k >= w.n then None else Some w.tbl.(k)
 let is_bound w k = match slot_of w k with Some s -> s.bound | None -> false
 let is_alive_oid w o = alive w.st (nat_of_int o)
-let is_live w k = match slot_of w k with Some s -> s.bound && is_alive_oid w s.oid | None -> false
+let slot_alive w s = (not s.lost) && is_alive_oid w s.oid
+let is_live w k = match slot_of w k with Some s -> s.bound && slot_alive w s | None -> false
 
 let kind_of_char c = match c with
   | 'B' -> KBlock | 'S' -> KSection | 'P' -> KProperty | 'A' -> KArray | 'D' -> KFrame | 'T' -> KTag
@@ -81,7 +84,7 @@ let arg w k kind : harg =
     let s = w.tbl.(k) in
     if s.kind <> kind then raise (Refuse "driver::kind");
     if not s.bound then HNone else begin
-      if not (is_alive_oid w s.oid) then begin
+      if not (slot_alive w s) then begin
         let p = s.parent in
         if p >= 0 && not (is_live w p) then raise (Refuse "driver::orphan")
       end;
@@ -124,7 +127,18 @@ let ord_opt w (o : nat option) = match o with Some x -> ord_of w x | None -> "-"
 let brack l = "[" ^ OStr.concat " " l ^ "]"
 let enc (s : string) = enc_str (ostr s)
 
+(* a name that is the id of a known entity is printed as i:<ordinal> *)
+let enc_name w (s : string) : ostring =
+  let o = ostr s in
+  let pre = "1d000000-0000-4000-8000-" in
+  if OStr.length o = 36 && OStr.sub o 0 24 = pre then
+    (match oint_of_string_opt (OStr.sub o 24 12) with
+     | Some oid -> (match OHashtbl.find_opt w.ord_of_oid oid with Some k -> "i:" ^ ostring_of_int k | None -> enc s)
+     | None -> enc s)
+  else enc s
+
 let show_field w f = match f with
+  | FStr (l, Some s) when ostr l = "n" -> "n=" ^ enc_name w s
   | FStr (l, v) -> ostr l ^ "=" ^ (match v with Some s -> enc s | None -> "-")
   | FRef (l, v) -> ostr l ^ "=" ^ ord_opt w v
   | FRefs (l, v) -> ostr l ^ "=" ^ brack (OLst.map (ord_of w) v)
@@ -178,7 +192,8 @@ let show w r = match r with Ok v -> "OK " ^ show_value w v | _ -> show_err r
 exception Thrown
 
 (* a query inside chk: the value text, or "!" when the call throws *)
-let q w (o : op) : ostring = match run_op w o with Ok v -> show_value w v | _ -> "!"
+exception ModelUB of ostring
+let q w (o : op) : ostring = match run_op w o with Ok v -> show_value w v | Err _ -> "!" | UB u -> raise (ModelUB (ostr u))
 
 let sl_arg_kind = lslot_kind
 
@@ -222,7 +237,7 @@ let chk_line w (ptok : ostring) (kc : char) : ostring =
   let gone = ref [] in
   for j = 0 to w.n - 1 do
     let s = w.tbl.(j) in
-    if s.bound && not (is_alive_oid w s.oid) && s.kind = kc && s.parent = pk then begin
+    if s.bound && not (slot_alive w s) && s.kind = kc && s.parent = pk then begin
       let id = ids (nat_of_int s.oid) in
       let hh = (try (match arg w j kc with a -> q w (OHasH (p, k, a))) with Refuse _ -> "!") in
       gone := (ostring_of_int j ^ ":" ^ q w (OHas (p, k, id)) ^ ":" ^ q w (OGet (p, k, id)) ^ ":" ^ hh) :: !gone
@@ -242,7 +257,7 @@ let chk_spec w (ptok : ostring) (kc : char) : ostring =
   let gone = ref [] in
   for j = 0 to w.n - 1 do
     let s = w.tbl.(j) in
-    if s.bound && not (is_alive_oid w s.oid) && s.kind = kc && s.parent = pk then
+    if s.bound && not (slot_alive w s) && s.kind = kc && s.parent = pk then
       gone := (ostring_of_int j ^ ":0:-:0") :: !gone
   done;
   "cnt=" ^ ostring_of_int (OLst.length l) ^ " idx=" ^ ll ^ (if named then " byname=" ^ ll else "") ^ " byid=" ^ ll ^
@@ -306,7 +321,7 @@ let do_mk w toks : ostring =
     let kc = kt.[0] in
     (* the slot exists from now on, bound or not *)
     let pk = if ptok = "F" then -1 else oint_of_string ptok in
-    w.tbl <- Array.append w.tbl [| { kind = kc; parent = pk; name = ""; bound = false; oid = -1 } |];
+    w.tbl <- Array.append w.tbl [| { kind = kc; parent = pk; name = ""; bound = false; oid = -1; lost = false } |];
     w.n <- k + 1;
     let nm_c = dec_sarg w name in
     w.tbl.(k) <- { (w.tbl.(k)) with name = ostr nm_c };
@@ -427,7 +442,17 @@ let answer w toks : ostring =
   | ["observe"] -> "OK " ^ dump w
   | ["uuid"; s] -> "OK " ^ bool01 (looksLikeUUID (cstr (dec_str s)))
   | _ ->
-    let head = (try do_line w toks with Refuse what -> "ERR " ^ what) in
+    let head = (try do_line w toks with Refuse what -> "ERR " ^ what | ModelUB u -> "UB " ^ u) in
+    (* the implementation driver recomputes liveness (by id) after every successful delete *)
+    (match toks with
+     | ("del" | "delh") :: _ when head = "OK 1" ->
+       for j = 0 to w.n - 1 do
+         let s = w.tbl.(j) in
+         if s.bound then (match find_ent w.st (nat_of_int s.oid) with
+             | Some e when int_of_nat (e_idx e) <> s.oid -> s.lost <- true
+             | _ -> ())
+       done
+     | _ -> ());
     let before = w.last_dump in
     w.last_dump <- dump w;
     head ^ tail_of before w.last_dump
@@ -442,8 +467,14 @@ let strip_tail (a : ostring) : ostring =
 
 let is_err a = OStr.length a >= 3 && OStr.sub a 0 3 = "ERR"
 
+(* after undefined behaviour the implementation's process is gone: the rest of the case cannot be compared *)
+let poisoned = ref false
+let is_ub a = OStr.length a >= 2 && OStr.sub a 0 2 = "UB"
+
 let run_hist (mode : ostring) =
   let handle toks =
+    if toks = ["new"] then poisoned := false;
+    if !poisoned then "UB the process died earlier in this case ## ANY" else
     let a = (try answer cur toks with Failure m -> "ERR driver::script " ^ m) in
     let b = (try answer rep toks with Failure m -> "ERR driver::script " ^ m) in
     let spec = (match toks with
@@ -453,6 +484,7 @@ let run_hist (mode : ostring) =
         | ["lchk"; h; sl] ->
           if mode = "C03" then (try "OK " ^ lchk_spec rep (oint_of_string h) (lslot_of_string sl) with Refuse what -> "ERR " ^ what | Failure _ -> "ANY") else "ANY"
         | _ -> if mode = "C08" then (if is_err b then "ERR t=0" else "NOTRACE") else "ANY") in
+    if is_ub a then poisoned := true;
     a ^ " ## " ^ spec in
   (* run_file prints "<lineno> <answer>" *)
   run_file OSys.argv.(1) handle
